@@ -2,8 +2,8 @@
 EXTENDS Format
 \* formatter options: id 0 is formatter.Default()
 Opt(id, w, ic, in, si, ss, kb) == [id |-> id, width |-> w, indentChar |-> ic, indentCount |-> in, sortImports |-> si, stripSemicolons |-> ss, keepBlank |-> kb]
-QuickOptions == { Opt(0, 100, " ", 4, TRUE, TRUE, 1), Opt(1, 40, "\t", 1, FALSE, FALSE, 0), Opt(2, 100, " ", 2, TRUE, FALSE, 2),
-                  Opt(3, 40, " ", 4, FALSE, TRUE, 2) }
+QuickOptions == { Opt(0, 100, " ", 4, TRUE, TRUE, 1), Opt(101, 40, "\t", 1, FALSE, FALSE, 0), Opt(102, 100, " ", 2, TRUE, FALSE, 2),
+                  Opt(103, 40, " ", 4, FALSE, TRUE, 2) }
 AllOptions == { Opt(0, 100, " ", 4, TRUE, TRUE, 1) } \cup
               { Opt(1 + (w \div 60) * 36 + ii * 12 + (IF si THEN 6 ELSE 0) + (IF ss THEN 3 ELSE 0) + kb, w, IF ii = 1 THEN "\t" ELSE " ", IF ii = 0 THEN 4 ELSE IF ii = 1 THEN 1 ELSE 2, si, ss, kb)
                   : w \in {40, 100}, ii \in 0..2, si \in BOOLEAN, ss \in BOOLEAN, kb \in 0..2 }
